@@ -110,6 +110,10 @@ structure Cfg where
   /-- F-C13-3 repair: payload arriving on a socket the application has already closed is answered
       with an RST and the socket is removed (Linux: "data received after close"). -/
   fixRstAfterClose : Bool := false
+  /-- F-C13-2 repair: a socket the application has closed and that has nothing in flight (e.g.
+      `FIN_WAIT2`) is also swept by `check_retx`, so it is aborted — and then reaped — after
+      `retx_threshold · (retx_max + 1)` silent egress passes (orphan timeout). -/
+  fixOrphanTimeout : Bool := false
   deriving DecidableEq, Repr, Inhabited
 
 /-- `advertised_window` (tcp.rs:1335). -/
